@@ -9,6 +9,8 @@ import Model.Proto.Pub
 import Model.Proto.Pair
 import Model.Proto.Push
 import Model.Proto.Pull
+import Model.Proto.Rep
+import Generated.Facts
 open Model Model.Proto
 namespace Driver.Machines
 
@@ -31,6 +33,7 @@ structure State where
   pair : List Pair.State := [Pair.init]
   push : List Push.State := [Push.init]
   pull : List Pull.State := [Pull.init]
+  rep : List Rep.State := [Rep.init .rep Generated.hop_rep]
   stuck : Bool := false      -- after a disagreement the scenario is abandoned until the next `new`
 
 /-- returns (new state, agrees?, expected rendering, branch) or none for an unknown tag -/
@@ -43,6 +46,13 @@ def step (s : State) (tag : String) (args : List String) (o : String) : Option (
     | "m.pair" => some ({ s with pair := [Pair.init], stuck := false }, true, "-", "new")
     | "m.push" => some ({ s with push := [Push.init], stuck := false }, true, "-", "new")
     | "m.pull" => some ({ s with pull := [Pull.init], stuck := false }, true, "-", "new")
+    | "m.rep" =>
+      let st := match args.getD 1 "" with
+        | "rep" => Rep.init .rep Generated.hop_rep
+        | "respondent" => Rep.init .respondent Generated.hop_respondent
+        | "xrep" => Rep.init .xrep Generated.hop_xrep
+        | _ => Rep.init .xrespondent Generated.hop_xrespondent
+      some ({ s with rep := [st], stuck := false }, true, "-", "new")
     | _ => none
   else if s.stuck then some (s, true, "(skipped after earlier disagreement)", "skipped") else
   match tag with
@@ -61,6 +71,9 @@ def step (s : State) (tag : String) (args : List String) (o : String) : Option (
   | "m.pull" =>
     let (cs, exp) := advance s.pull Pull.step args o
     if cs.isEmpty then some ({ s with stuck := true }, false, exp, opName) else some ({ s with pull := cs }, true, o, opName)
+  | "m.rep" =>
+    let (cs, exp) := advance s.rep Rep.step args o
+    if cs.isEmpty then some ({ s with stuck := true }, false, exp, opName) else some ({ s with rep := cs }, true, o, opName)
   | _ => none
 
 end Driver.Machines
